@@ -606,7 +606,12 @@ func (h *dbHarness) execIBatch(op *DBOp) {
 		if m.K == "singledel" {
 			m.K = "del" // keep the contract trivially satisfied inside uncommitted batches
 		}
-		if err := applyToBatch(b.b, m); err != nil {
+		apply := applyToBatch
+		if h.r.IntN(2) == 0 {
+			apply = applyToBatchDeferred
+			h.count("probe.ibatch_deferred_op", 1)
+		}
+		if err := apply(b.b, m); err != nil {
 			h.opErr("ibatch-op", err)
 			return
 		}
